@@ -14,6 +14,11 @@ for d in seeded/*/; do
   [ -f $d/patch.diff ] || continue
   echo "$name" | grep -Eq "$PAT" || continue
   grep -v "^$name	" seeded/RESULTS.tsv > seeded/RESULTS.tsv.tmp; mv seeded/RESULTS.tsv.tmp seeded/RESULTS.tsv
+  if grep -q '"neutralised"' $d/meta.json; then
+    git -C $WT checkout -q -- . ; git -C $WT clean -fdq
+    git -C $WT apply $d/patch.diff 2>/dev/null; PYTHONPATH=$WT timeout 900 /venv/bin/python $d/demo.py >/dev/null 2>&1; c1=$?
+    echo -e "$name\tNEUTRALISED-BY-A-FIX (demonstration with the change applied exits $c1)" | tee -a seeded/RESULTS.tsv; continue
+  fi
   git -C $WT checkout -q -- . ; git -C $WT clean -fdq
   PYTHONPATH=$WT timeout 900 /venv/bin/python $d/demo.py >/dev/null 2>&1; c0=$?
   if ! git -C $WT apply $d/patch.diff 2>/dev/null; then echo -e "$name\tPATCH-DOES-NOT-APPLY" | tee -a seeded/RESULTS.tsv; continue; fi
